@@ -8,4 +8,5 @@ let entries : (string * (byte list -> byte list)) list = [
   "shape_model", shape_model_line;
   "recursion_model", recursion_model_line;
   "formats_model", formats_model_line;
+  "regex_model", regex_model_line;
 ]
